@@ -62,14 +62,30 @@ struct mtbl_iter *mtbl_source_get_range(const struct mtbl_source *s, const uint8
 struct mtbl_source *mtbl_source_init(mtbl_source_iter_func a, mtbl_source_get_func b, mtbl_source_get_prefix_func c, mtbl_source_get_range_func d, mtbl_source_free_func e, void *clos) { return malloc(sizeof(struct mtbl_source)); }
 void mtbl_source_destroy(struct mtbl_source **s) { if (*s) { free(*s); *s = NULL; } }
 
-/* ---------- merge function: adds the 16-bit values; counts calls; may fail ---------- */
+/* ---------- merge function: an arbitrary function (result length 0..2, arbitrary bytes; may fail) that checks the fold
+ * discipline: the left operand is the fold so far (initially the value of an entry not yet used), the right operand is the
+ * value of an entry not yet used; every entry's value is unique (SVAL), so "used exactly once" is decidable ---------- */
 static unsigned vg_merge_calls; static _Bool vg_merge_fail_now;
+static unsigned vg_used;                         /* bit e set: value of entry e has been consumed by the fold */
+static uint8_t vg_fold[2]; static size_t vg_fold_len;
+static int vg_entry_of(const uint8_t *v, size_t l) { if (l != 2) return -1; uint16_t x = (uint16_t)(v[0] | v[1] << 8); for (unsigned e = 0; e < NS * NEs; e++) if (SVAL[e] == x) return (int)e; return -1; }
 static void vg_merge(void *clos, const uint8_t *key, size_t lk, const uint8_t *v0, size_t l0, const uint8_t *v1, size_t l1, uint8_t **out, size_t *lo)
 {
+	if (vg_merge_calls == 0) {
+		int e0 = vg_entry_of(v0, l0);
+		VG_P("C04", e0 >= 0 && !(vg_used & (1u << e0)) && SLK[e0] == lk && (lk == 0 || SKEY[e0] == key[0]), "the fold starts from the value of a source entry with that key");
+		if (e0 >= 0) vg_used |= 1u << e0;
+	} else {
+		VG_P("C04", l0 == vg_fold_len && (l0 < 1 || v0[0] == vg_fold[0]) && (l0 < 2 || v0[1] == vg_fold[1]), "the left operand of every later merge call is the result of the previous one (an empty result included)");
+	}
+	int e1 = vg_entry_of(v1, l1);
+	VG_P("C04", e1 >= 0 && !(vg_used & (1u << e1)) && SLK[e1] == lk && (lk == 0 || SKEY[e1] == key[0]), "the right operand is the value of a source entry with that key that has not been used yet");
+	if (e1 >= 0) vg_used |= 1u << e1;
 	vg_merge_calls++;
 	if (vg_merge_fail_now) { *out = NULL; *lo = 0; return; }
-	uint16_t a = (uint16_t)(v0[0] | v0[1] << 8), b = (uint16_t)(v1[0] | v1[1] << 8), c = (uint16_t)(a + b);
-	*out = malloc(2); (*out)[0] = (uint8_t)c; (*out)[1] = (uint8_t)(c >> 8); *lo = 2;
+	vg_fold_len = nondet_size(); __CPROVER_assume(vg_fold_len <= 2);
+	vg_fold[0] = nondet_u8(); vg_fold[1] = nondet_u8();
+	*out = malloc(2); (*out)[0] = vg_fold[0]; (*out)[1] = vg_fold[1]; *lo = vg_fold_len;
 }
 
 static void vg_make_sources(void)
@@ -187,10 +203,10 @@ void h_merger_next_step(void)
 	vg_merge_fail_now = 0;
 	unsigned P[NS]; for (unsigned s = 0; s < NS; s++) P[s] = H[s];
 	uint8_t mk = 0; size_t ml = 0; _Bool have = vg_min_from(P, &mk, &ml) && !it->finished;
-	/* expected fold */
-	uint16_t sum = 0; unsigned cnt = 0;
+	/* expected set of entries folded into this key */
+	unsigned want_used = 0; unsigned cnt = 0;
 	if (have) {
-		if (in_merge) { for (unsigned s = 0; s < NS; s++) if (s < vg_ns) while (P[s] < SN[s] && vg_cmp(&SKEY[s * NEs + P[s]], SLK[s * NEs + P[s]], &mk, ml) == 0) { sum += SVAL[s * NEs + P[s]]; P[s]++; cnt++; } }
+		if (in_merge) { for (unsigned s = 0; s < NS; s++) if (s < vg_ns) while (P[s] < SN[s] && vg_cmp(&SKEY[s * NEs + P[s]], SLK[s * NEs + P[s]], &mk, ml) == 0) { want_used |= 1u << (s * NEs + P[s]); P[s]++; cnt++; } }
 		else { /* exactly one entry with the minimal key is emitted; which one is the heap's choice */ }
 	}
 	const uint8_t *k, *v; size_t lk, lv;
@@ -200,13 +216,17 @@ void h_merger_next_step(void)
 	if (res == mtbl_res_success && have) {
 		VG_REACH("merger_iter_next succeeds");
 		VG_P("C04,C05", lk == ml && (lk == 0 || k[0] == mk), "next returns the smallest key among the sources' next entries (ascending order; the empty key included)");
-		VG_P("C04", lv == 2, "value length");
-		uint16_t got = (uint16_t)(v[0] | v[1] << 8);
+		uint16_t got = (lv == 2) ? (uint16_t)(v[0] | v[1] << 8) : 0;
 		if (in_merge) {
-			VG_P("C04", got == sum, "the value is the fold of the merge function over all values the sources hold for that key, each used exactly once");
-			VG_P("C04", vg_merge_calls == cnt - 1, "the merge function is called once per additional value");
+			if (cnt >= 2) {
+				VG_P("C04", vg_used == want_used && vg_merge_calls == cnt - 1, "every value the sources hold for that key is used by the fold exactly once");
+				VG_P("C04", lv == vg_fold_len && (lv < 1 || v[0] == vg_fold[0]) && (lv < 2 || v[1] == vg_fold[1]), "the value returned is the result of the last merge call (an empty merged value included)");
+			} else {
+				VG_P("C04", vg_merge_calls == 0 && lv == 2 && vg_entry_of(v, lv) >= 0 && (1u << vg_entry_of(v, lv)) == want_used, "a key present in a single source passes through unchanged");
+			}
 			vg_check_M(it, P);
 		} else {
+			VG_P("C04", lv == 2, "value length");
 			/* the emitted entry is one of the entries with the minimal key; its source advanced by one */
 			unsigned who = NS;
 			for (unsigned s = 0; s < NS; s++) if (s < vg_ns && P[s] < SN[s] && SVAL[s * NEs + P[s]] == got && vg_cmp(&SKEY[s * NEs + P[s]], SLK[s * NEs + P[s]], &mk, ml) == 0) who = s;
@@ -251,16 +271,16 @@ void h_merger_seek_step(void)
 	vg_check_M(it, P);
 	VG_P("C05", !it->pending, "seek leaves no half-built entry");
 	uint8_t mk = 0; size_t ml = 0; _Bool have = vg_min_from(P, &mk, &ml);
-	uint16_t sum = 0;
-	if (have && in_merge) for (unsigned s = 0; s < NS; s++) if (s < vg_ns) { unsigned p = P[s]; while (p < SN[s] && vg_cmp(&SKEY[s * NEs + p], SLK[s * NEs + p], &mk, ml) == 0) { sum += SVAL[s * NEs + p]; p++; } }
+	unsigned want_used = 0, cnt = 0;
+	if (have && in_merge) for (unsigned s = 0; s < NS; s++) if (s < vg_ns) { unsigned p = P[s]; while (p < SN[s] && vg_cmp(&SKEY[s * NEs + p], SLK[s * NEs + p], &mk, ml) == 0) { want_used |= 1u << (s * NEs + p); p++; cnt++; } }
 	const uint8_t *k, *v; size_t lk, lv;
-	vg_merge_calls = 0;
+	vg_merge_calls = 0; vg_used = 0;
 	mtbl_res res = merger_iter_next(it, &k, &lk, &v, &lv);
 	VG_P("C05", (res == mtbl_res_success) == have, "after seek(k), next succeeds iff a merged entry >= k exists");
 	if (res == mtbl_res_success && have) {
 		VG_REACH("next after seek succeeds");
 		VG_P("C05", lk == ml && (lk == 0 || k[0] == mk), "after seek(k), next returns the first merged entry with key >= k");
-		if (in_merge) VG_P("C05,C04", lv == 2 && (uint16_t)(v[0] | v[1] << 8) == sum, "a seek landing on a key that needs merging returns the fully merged value");
+		if (in_merge && cnt >= 2) VG_P("C05,C04", vg_used == want_used && vg_merge_calls == cnt - 1, "a seek landing on a key that needs merging folds every value for that key exactly once");
 	}
 	/* the remembered key orders later seeks: every consumed entry is <= it, every unconsumed one >= it */
 	if (ubuf_size(it->cur_key) > 0) for (unsigned s = 0; s < NS; s++) if (s < vg_ns) for (unsigned i = 0; i < NEs; i++) if (i < SN[s]) {
